@@ -54,6 +54,7 @@ def make_run(cfg):
             w.net.wire_hook = hook
             client_view = {}
             order = {}
+            nocorr_requests = set()
 
             def make_client(ci, script):
                 def body():
@@ -76,7 +77,11 @@ def make_run(cfg):
                             n += 1
                             reqi = ("c%d-%d" % (ci, n)).encode()
                             current_context.annotations = {"REQI": reqi}
-                            current_context.correlation_id = uuid.UUID(int=(ci + 1) * 1000 + n)
+                            nocorr = step.endswith("!nocorr")      # this request carries no correlation id: the daemon assigns a fresh one
+                            step = step.replace("!nocorr", "")
+                            current_context.correlation_id = None if nocorr else uuid.UUID(int=(ci + 1) * 1000 + n)
+                            if nocorr:
+                                nocorr_requests.add(reqi)
                             tag = "c%d-%d" % (ci, n)
                             try:
                                 if step == "reconnect":
@@ -141,7 +146,13 @@ def make_run(cfg):
                 where = ("oneway-thread" if k == "ow_set" else "method") + ("|after-yield" if late else "")
                 if rec["reqi"] != want_reqi:
                     V("context-of-other-request|annotations|%s|%s" % (srv, where), "method %s(%s) saw request annotation %r" % (k, tag, rec["reqi"]))
-                if rec["corr"] != str(uuid.UUID(int=(ci + 1) * 1000 + n)):
+                if want_reqi in nocorr_requests:
+                    # no id was sent: whatever the daemon assigns must not be the id of any other request
+                    client_ids = {str(uuid.UUID(int=(c + 1) * 1000 + m)) for c in range(len(scripts)) for m in range(1, 10)}
+                    others = {r["corr"] for r in tgt.seen if r["reqi"] != rec["reqi"]}
+                    if rec["corr"] in client_ids or rec["corr"] in others or rec["corr"] == "None":
+                        V("context-of-other-request|correlation-id-reused-for-request-without-one|%s" % srv, "method %s(%s) saw correlation id %s, which belongs to another request" % (k, tag, rec["corr"]))
+                elif rec["corr"] != str(uuid.UUID(int=(ci + 1) * 1000 + n)):
                     V("context-of-other-request|correlation-id|%s|%s" % (srv, where), "method %s(%s) saw correlation id %s" % (k, tag, rec["corr"]))
                 want_flags_oneway = (k == "ow_set")
                 if bool(rec["flags"] & protocol.FLAGS_ONEWAY) != want_flags_oneway:
@@ -227,6 +238,10 @@ def configs(quick):
     hist = itertools.product(calls + ["reconnect"], repeat=3) if not quick else [h for h in itertools.product(calls + ["reconnect"], repeat=3) if h[0] in ("raise_after_set", "ow_set", "ret_update") and h[1] != h[0]]
     for h in hist:
         out.append({"server": "multiplex", "pool": 4, "scripts": [list(h)], "p": 1 if not quick else 0, "r": 1, "horizon": 4000})
+    # (c2) requests without a correlation id after requests that carried one (same serving thread)
+    for server, pool, seqn in (("multiplex", 4, False), ("thread", 1, True), ("multiplex", 4, True)):
+        out.append({"server": server, "pool": pool, "sequential": seqn, "scripts": [["plain", "ret_assign"], ["plain!nocorr", "ow_set!nocorr", "plain!nocorr"]], "p": 1, "r": 1, "horizon": 4000})
+    out.append({"server": "multiplex", "pool": 4, "scripts": [["plain", "plain!nocorr", "raise_after_set!nocorr", "plain"]], "p": 0, "r": 1, "horizon": 4000})
     # (d) three clients
     out.append({"server": "multiplex", "pool": 4, "scripts": [["raise_after_set"], ["ow_set"], ["plain", "ping"]], "p": 1, "r": 1 if quick else 2, "horizon": 4000})
     out.append({"server": "multiplex", "pool": 4, "daemon_ann": True, "scripts": [["ret_assign", "plain"], ["raise_after_set", "plain"]], "p": 1, "r": 2, "horizon": 4000})
